@@ -407,13 +407,155 @@ func genCase(r *rng.R, malformed bool) Input {
 	return in
 }
 
+
+// Chains whose files read so far (with -basepath / LAYERROOT if given) already supply every
+// setting, followed by the interesting thing: a loop back to a visited file, a file with an
+// unknown key, a missing or unreadable file, or a harmless further file.  The rest of the chain
+// must be followed although it cannot change any value.
+func genCompleteCase(r *rng.R) Input {
+	var in Input
+	in.Cwd = B(T + "/cwd")
+	in.Home = B(T + "/home")
+	in.Argv0 = B(T + "/usr/bin/layercake")
+	dirs := []string{T + "/cwd", T + "/home", T + "/usr/bin", T + "/usr/etc", T + "/conf", T + "/d"}
+	pool := []string{T + "/conf/a.conf", T + "/conf/b.conf", T + "/c.conf", T + "/d/e.conf", T + "/conf/g.conf"}
+	for i := len(pool) - 1; i > 0; i-- {
+		j := r.Intn(i + 1)
+		pool[i], pool[j] = pool[j], pool[i]
+	}
+	np := 1 + r.Intn(3) // files of the complete prefix
+	keys := append([]string{}, keyNames...)
+	for i := len(keys) - 1; i > 0; i-- {
+		j := r.Intn(i + 1)
+		keys[i], keys[j] = keys[j], keys[i]
+	}
+	// where does the base path come from?
+	baseFrom := r.Pick([]string{"file", "file", "switch", "env", "both"})
+	switch baseFrom {
+	case "switch":
+		in.SwBase = B(absDir(r))
+	case "env":
+		in.LayerRoot = B(absDir(r))
+	case "both":
+		in.SwBase = B(absDir(r))
+		in.LayerRoot = B(absDir(r))
+	}
+	prefix := make([]*fileGen, np)
+	for i := range prefix {
+		prefix[i] = &fileGen{path: pool[i]}
+	}
+	head := r.Pick([]string{"switch", "switch", "layerconf", "home", "exe"})
+	switch head {
+	case "home":
+		prefix[0].path = T + "/home/.layercake"
+	case "exe":
+		prefix[0].path = T + "/usr/etc/layercake.conf"
+		in.Home = ""
+	}
+	goodVal := func(k string) string {
+		switch k {
+		case "BASEPATH":
+			return absDir(r)
+		case "CHROOT_EXEC":
+			return r.Pick([]string{"/usr/sbin/chroot", "/bin/../sbin/chroot", "/usr/bin/chroot"})
+		case "LAYERS", "EXPORTS":
+			if r.Bool() {
+				return relDir(r)
+			}
+			return absDir(r)
+		}
+		return plainVal(r)
+	}
+	for i, k := range keys {
+		if k == "BASEPATH" && baseFrom != "file" && r.Chance(2, 3) {
+			continue // supplied by the switch / the environment only
+		}
+		f := prefix[i%np]
+		f.lines = append(f.lines, renderLine(r, k, goodVal(k), false))
+		if r.Chance(1, 6) { // the same key again later in the prefix: first value wins
+			g := prefix[r.Intn(np)]
+			if g != f {
+				g.lines = append(g.lines, renderLine(r, k, goodVal(k), false))
+			}
+		}
+	}
+	addLink := func(f *fileGen, link string) {
+		pos := r.Intn(len(f.lines) + 1)
+		l := renderLine(r, "CONFIGFILE", link, false)
+		f.lines = append(f.lines[:pos:pos], append([]string{l}, f.lines[pos:]...)...)
+	}
+	for i := 0; i < np-1; i++ {
+		addLink(prefix[i], spell(r, prefix[i+1].path))
+	}
+	files := append([]*fileGen{}, prefix...)
+	last := prefix[np-1]
+	tail := r.Pick([]string{"loop", "loop", "self", "unknown", "unknown", "missing", "directory", "fine", "fine-then-loop",
+		"fine-then-unknown", "none"})
+	extra := func(lines ...string) *fileGen {
+		g := &fileGen{path: pool[np+len(files)-len(prefix)], lines: lines}
+		files = append(files, g)
+		return g
+	}
+	unknownLine := func() string {
+		return r.Pick([]string{"NOSUCHKEY = 1", "NOSUCHKEY =", "garbage line here", "[section]", "LAYER = l", "KK = 1", "= value"})
+	}
+	switch tail {
+	case "loop":
+		addLink(last, spell(r, prefix[r.Intn(np)].path))
+	case "self":
+		addLink(last, spell(r, last.path))
+	case "unknown":
+		g := extra(unknownLine())
+		if r.Bool() {
+			g.lines = append([]string{renderLine(r, "BUILDROOT", "later", false)}, g.lines...)
+		}
+		addLink(last, spell(r, g.path))
+	case "missing":
+		addLink(last, r.Pick([]string{T + "/conf/nosuch.conf", "/nonexistent/x.conf", T + "/conf/a.conf/", "nosuch-relative.conf"}))
+	case "directory":
+		addLink(last, r.Pick([]string{T + "/conf", T + "/d/"}))
+	case "fine":
+		g := extra(renderLine(r, "BUILDROOT", "later", false), renderLine(r, "BASEPATH", "/later/base", false))
+		addLink(last, spell(r, g.path))
+	case "fine-then-loop":
+		g := extra("# nothing new here")
+		addLink(last, spell(r, g.path))
+		addLink(g, spell(r, files[r.Intn(len(files))].path))
+	case "fine-then-unknown":
+		g := extra(renderLine(r, "EXPORTS", "/later/exp", false))
+		addLink(last, spell(r, g.path))
+		h := extra(unknownLine())
+		addLink(g, spell(r, h.path))
+	}
+	for _, f := range files {
+		in.Files = append(in.Files, FileSpec{Path: B(f.path), Content: B(f.content(r, false))})
+	}
+	switch head {
+	case "switch":
+		in.SwConf = B(spell(r, prefix[0].path))
+	case "layerconf":
+		in.LayerConf = B(spell(r, prefix[0].path))
+	}
+	for _, d := range dirs {
+		in.Files = append(in.Files, FileSpec{Path: B(d), Dir: true})
+	}
+	in.Bin = r.Chance(1, 4)
+	in.Note = fmt.Sprintf("chain=%d head=%s end=complete-then-%s", len(files), head, tail)
+	return in
+}
+
 func Generate(r *rng.R, tier string, n int, emit func(*common.Case)) {
 	defer cleanupRoot()
 	for i := 0; i < n; i++ {
 		cr := r.Split()
 		sub := cr.U64()
 		cr = rng.New(sub)
-		in := genCase(cr, i%5 == 4)
+		var in Input
+		if i%8 == 3 {
+			in = genCompleteCase(cr)
+		} else {
+			in = genCase(cr, i%5 == 4)
+		}
 		c := Run(in)
 		c.Sub = sub
 		emit(c)
